@@ -30,3 +30,1068 @@ Proof.
   - apply N.eqb_eq in S. exact S.
   - rewrite N.mul_comm. apply N.div_mod. lia.
 Qed.
+
+(* ------------------------------------------------------------------ *)
+(* basic facts *)
+From Verif Require Import C10.CborConv.
+
+Lemma be_put_sbe : forall k v, be_put k v = sbe k v.
+Proof. induction k; intros; simpl; [reflexivity | rewrite IHk; reflexivity]. Qed.
+
+Lemma be_get_sget : forall l, be_get l = sget l.
+Proof. reflexivity. Qed.
+
+Lemma be_get_snoc : forall l x, be_get (l ++ [x]) = be_get l * 256 + x.
+Proof. intros. unfold be_get. rewrite fold_left_app. reflexivity. Qed.
+
+Lemma be_get_put : forall k v, v < 256 ^ N.of_nat k -> be_get (sbe k v) = v.
+Proof.
+  induction k; intros v Hv.
+  - simpl in *. unfold be_get. simpl. lia.
+  - cbn [sbe]. rewrite be_get_snoc. rewrite IHk.
+    + pose proof (N.div_mod' v 256). lia.
+    + rewrite Nat2N.inj_succ, N.pow_succ_r' in Hv. apply N.div_lt_upper_bound; lia.
+Qed.
+
+Lemma length_sbe : forall k v, length (sbe k v) = k.
+Proof. induction k; intros; cbn [sbe]; [reflexivity | rewrite app_length, IHk; simpl; lia]. Qed.
+
+Lemma firstn_app_len {A} : forall (x r : list A), firstn (length x) (x ++ r) = x.
+Proof. induction x; intros; simpl; [reflexivity | rewrite IHx; reflexivity]. Qed.
+Lemma skipn_app_len {A} : forall (x r : list A), skipn (length x) (x ++ r) = r.
+Proof. induction x; intros; simpl; [reflexivity | apply IHx]. Qed.
+
+Lemma take_app : forall x rest, take (N.of_nat (length x)) (x ++ rest) = Ok (x, rest).
+Proof.
+  intros. unfold take. rewrite app_length.
+  replace (N.of_nat (length x + length rest) <? N.of_nat (length x)) with false by (symmetry; apply N.ltb_ge; lia).
+  rewrite Nat2N.id, firstn_app_len, skipn_app_len. reflexivity.
+Qed.
+
+Lemma rskip_app : forall x rest, rskip (N.of_nat (length x)) (x ++ rest) = Ok rest.
+Proof.
+  intros. unfold rskip. rewrite app_length.
+  replace (N.of_nat (length x + length rest) <? N.of_nat (length x)) with false by (symmetry; apply N.ltb_ge; lia).
+  rewrite Nat2N.id, skipn_app_len. reflexivity.
+Qed.
+
+Lemma take_sbe : forall k v rest, take (N.of_nat k) (sbe k v ++ rest) = Ok (sbe k v, rest).
+Proof. intros. rewrite <- (length_sbe k v) at 1. apply take_app. Qed.
+
+Lemma rskip_sbe : forall k v rest, rskip (N.of_nat k) (sbe k v ++ rest) = Ok rest.
+Proof. intros. rewrite <- (length_sbe k v) at 1. apply rskip_app. Qed.
+
+Lemma hd_div : forall mt a, a < 32 -> (mt * 32 + a) / 32 = mt.
+Proof. intros. rewrite N.div_add_l by lia. rewrite N.div_small by lia. lia. Qed.
+Lemma hd_mod : forall mt a, a < 32 -> (mt * 32 + a) mod 32 = a.
+Proof. intros. rewrite N.add_comm, N.mod_add by lia. apply N.mod_small; lia. Qed.
+
+Lemma ai_of_le : forall w v, fits w v -> ai_of w v <= 27.
+Proof. destruct w; simpl; intros; lia. Qed.
+
+Lemma fits_pow : forall w v, fits w v -> w <> W0 -> v < 256 ^ N.of_nat (wbytes w).
+Proof. destruct w; simpl; intros; try congruence; lia. Qed.
+
+(* decUint / uintBytes read back the argument of a head of any width *)
+Lemma read_uint_head : forall w v rest, fits w v ->
+  read_uint (ai_of w v) (sbe (wbytes w) v ++ rest) = Ok (v, rest).
+Proof.
+  intros w v rest H. unfold read_uint.
+  destruct w; cbn [ai_of wbytes].
+  - simpl in H. replace (v <=? 23) with true by (symmetry; apply N.leb_le; lia). reflexivity.
+  - change (24 <=? 23) with false. change (24 =? 24) with true. cbv iota.
+    rewrite (take_sbe 1). cbn [bind]. rewrite be_get_put by (simpl in *; lia). reflexivity.
+  - change (25 <=? 23) with false. change (25 =? 24) with false. change (25 =? 25) with true. cbv iota.
+    rewrite (take_sbe 2). cbn [bind]. rewrite be_get_put by (simpl in *; lia). reflexivity.
+  - change (26 <=? 23) with false. change (26 =? 24) with false. change (26 =? 25) with false. change (26 =? 26) with true. cbv iota.
+    rewrite (take_sbe 4). cbn [bind]. rewrite be_get_put by (simpl in *; lia). reflexivity.
+  - change (27 <=? 23) with false. change (27 =? 24) with false. change (27 =? 25) with false. change (27 =? 26) with false.
+    change (27 =? 27) with true. cbv iota.
+    rewrite (take_sbe 8). cbn [bind]. rewrite be_get_put by (simpl in *; lia). reflexivity.
+Qed.
+
+Lemma uint_bytes_head : forall w v rest, fits w v ->
+  uint_bytes (ai_of w v) (sbe (wbytes w) v ++ rest) = Ok (v, rest).
+Proof.
+  intros w v rest H. unfold uint_bytes.
+  destruct w; cbn [ai_of wbytes].
+  - simpl in H.
+    replace (v =? 24) with false by (symmetry; apply N.eqb_neq; lia).
+    replace (v =? 25) with false by (symmetry; apply N.eqb_neq; lia).
+    replace (v =? 26) with false by (symmetry; apply N.eqb_neq; lia).
+    replace (v =? 27) with false by (symmetry; apply N.eqb_neq; lia).
+    replace (27 <? v) with false by (symmetry; apply N.ltb_ge; lia). reflexivity.
+  - change (24 =? 24) with true. cbv iota.
+    rewrite (take_sbe 1). cbn [bind]. rewrite be_get_put by (simpl in *; lia). reflexivity.
+  - change (25 =? 24) with false. change (25 =? 25) with true. cbv iota.
+    rewrite (take_sbe 2). cbn [bind]. rewrite be_get_put by (simpl in *; lia). reflexivity.
+  - change (26 =? 24) with false. change (26 =? 25) with false. change (26 =? 26) with true. cbv iota.
+    rewrite (take_sbe 4). cbn [bind]. rewrite be_get_put by (simpl in *; lia). reflexivity.
+  - change (27 =? 24) with false. change (27 =? 25) with false. change (27 =? 26) with false.
+    change (27 =? 27) with true. cbv iota.
+    rewrite (take_sbe 8). cbn [bind]. rewrite be_get_put by (simpl in *; lia). reflexivity.
+Qed.
+
+Lemma fits_64 : forall w v, fits w v -> v < 18446744073709551616.
+Proof. destruct w; simpl; lia. Qed.
+
+Lemma dec_len_head : forall w v rest, fits w v -> v < 9223372036854775808 ->
+  dec_len (ai_of w v) (sbe (wbytes w) v ++ rest) = Ok (v, rest).
+Proof.
+  intros. unfold dec_len. rewrite read_uint_head by assumption. cbn [bind].
+  replace (9223372036854775808 <=? v) with false by (symmetry; apply N.leb_gt; lia). reflexivity.
+Qed.
+
+(* resI plumbing *)
+Lemma fst_bindI {A B} : forall (m : resI A) (k : A -> resI B) a, fst m = Ok a -> fst (bindI m k) = fst (k a).
+Proof. intros. unfold bindI. rewrite H. reflexivity. Qed.
+Lemma fst_liftI {A} : forall r (x : res A), fst (liftI r x) = x.
+Proof. reflexivity. Qed.
+
+Lemma kind_head : forall mt a, a < 32 -> kind_of (mt * 32 + a) = kind_of_mt mt.
+Proof. intros. unfold kind_of. rewrite hd_div by assumption. reflexivity. Qed.
+
+Lemma dec_S : forall D f' d r bd b1,
+  dec D (S f') d r (bd :: b1) =
+  dec_body D f' (dec D f') (arr_def D f') (arr_indef D f') (map_def D f') (map_indef D f') d r bd b1.
+Proof. reflexivity. Qed.
+
+(* ------------------------------------------------------------------ *)
+(* integers *)
+Lemma int64v_pos : forall n, n < 9223372036854775808 -> int64v n false = Ok (Z.of_N n).
+Proof.
+  intros n H. unfold int64v. cbn [andb negb orb].
+  replace (9223372036854775808 <=? n) with false by (symmetry; apply N.leb_gt; assumption).
+  replace (n <? 9223372036854775808) with true by (symmetry; apply N.ltb_lt; assumption). reflexivity.
+Qed.
+
+Lemma int64v_neg : forall n, n < 9223372036854775808 -> int64v n true = Ok (-1 - Z.of_N n)%Z.
+Proof.
+  intros n H. unfold int64v.
+  rewrite (N.mod_small (n + 1)) by lia. cbn [andb negb orb].
+  replace (9223372036854775808 <? n + 1) with false by (symmetry; apply N.ltb_ge; lia).
+  rewrite orb_false_r.
+  assert (C : n + 1 = 9223372036854775808 \/ n + 1 < 9223372036854775808) by lia.
+  destruct C as [C | C].
+  - rewrite C. replace (Z.of_N n) with 9223372036854775807%Z by lia. vm_compute. reflexivity.
+  - replace (n + 1 <? 9223372036854775808) with true by (symmetry; apply N.ltb_lt; assumption).
+    unfold wrap_int64.
+    replace ((- Z.of_N (n + 1)) mod 18446744073709551616)%Z with (18446744073709551616 - Z.of_N (n + 1))%Z.
+    + replace (18446744073709551616 - Z.of_N (n + 1) <? 9223372036854775808)%Z with false by (symmetry; apply Z.ltb_ge; lia).
+      f_equal. lia.
+    + apply Z.mod_unique with (q := (-1)%Z); lia.
+Qed.
+
+(* first byte of a serialisation: never the break code *)
+Lemma shead_cons : forall mt w v, shead mt w v = (mt * 32 + ai_of w v) :: sbe (wbytes w) v.
+Proof. reflexivity. Qed.
+
+Lemma ser_hd : forall t, twf t -> exists bd tl, ser t = bd :: tl /\ bd <> 255.
+Proof.
+  destruct t; intros H; cbn [ser twf] in *;
+    try (rewrite shead_cons; cbn [app]; eexists; eexists; split; [reflexivity |];
+         match goal with H : _ |- _ => idtac end).
+  all: try (match goal with
+            | H : fits ?w ?v |- _ => pose proof (ai_of_le w v H)
+            | H : fits ?w ?v /\ _ |- _ => pose proof (ai_of_le w v (proj1 H))
+            end; lia).
+  all: try (eexists; eexists; split; [reflexivity | lia]).
+Qed.
+
+Lemma tdepth_nonneg : forall D t, (0 <= tdepth D t)%Z.
+Proof.
+  intros D t. induction t using wtree_ind'; cbn [tdepth]; try lia.
+  - assert (0 <= fold_right (fun x m => Z.max (tdepth D x) m) 0 l)%Z by (clear; induction l; simpl; lia). lia.
+  - assert (0 <= fold_right (fun x m => Z.max (tdepth D x) m) 0 l)%Z by (clear; induction l; simpl; lia). lia.
+  - assert (0 <= fold_right (fun kv m => Z.max (Z.max (tdepth D (fst kv)) (tdepth D (snd kv))) m) 0 l)%Z by (clear; induction l; simpl; lia). lia.
+  - assert (0 <= fold_right (fun kv m => Z.max (Z.max (tdepth D (fst kv)) (tdepth D (snd kv))) m) 0 l)%Z by (clear; induction l; simpl; lia). lia.
+  - destruct ((t =? 55799) || do_skiptags D); lia.
+Qed.
+
+(* ------------------------------------------------------------------ *)
+(* the decoder on every well-formed serialisation (any width, any length form) *)
+Lemma fix_Forall {A} (P : A -> Prop) : forall l,
+  (fix go (l : list A) : Prop := match l with [] => True | x :: r => P x /\ go r end) l <-> Forall P l.
+Proof. induction l; split; intros H; [constructor | exact I | destruct H; constructor; tauto | inversion H; subst; tauto]. Qed.
+
+Lemma fix_Forall2 {A} (P Q : A -> Prop) : forall l,
+  (fix go (l : list A) : Prop := match l with [] => True | x :: r => P x /\ Q x /\ go r end) l
+  <-> Forall (fun x => P x /\ Q x) l.
+Proof. induction l; split; intros H; [constructor | exact I | destruct H as (?&?&?); constructor; tauto | inversion H; subst; tauto]. Qed.
+
+Lemma ser_len_pos : forall t, (1 <= length (ser t))%nat.
+Proof. destruct t; cbn [ser app]; unfold shead; cbn [app length]; lia. Qed.
+
+Definition dec_ok (D : dopts) (t : wtree) : Prop :=
+  forall f d r rest, (2 * length (ser t) + 1 <= f)%nat -> (d + tdepth D t < maxdepth D)%Z ->
+  fst (dec D f d r (ser t ++ rest)) = Ok (go_of D (data_of t), rest).
+
+Lemma arr_def_S : forall D f' d r n b,
+  arr_def D (S f') d r n b =
+  if n =? 0 then (Ok ([], b), r)
+  else doI (x, b1) <- dec D f' d r b ;; doI (xs, b2) <- arr_def D f' d r (n - 1) b1 ;; (Ok (x :: xs, b2), r).
+Proof. reflexivity. Qed.
+
+Lemma arr_indef_S : forall D f' d r bd b1,
+  arr_indef D (S f') d r (bd :: b1) =
+  if bd =? bdBreak then (Ok ([], b1), r)
+  else doI (x, b2) <- dec D f' d r (bd :: b1) ;; doI (xs, b3) <- arr_indef D f' d r b2 ;; (Ok (x :: xs, b3), r).
+Proof. reflexivity. Qed.
+
+Lemma arr_def_ser : forall D l, Forall (dec_ok D) l ->
+  forall f d r rest, (2 * length (flat_map ser l) + 2 <= f)%nat ->
+  (d + fold_right (fun x m => Z.max (tdepth D x) m) 0 l < maxdepth D)%Z ->
+  fst (arr_def D f d r (N.of_nat (length l)) (flat_map ser l ++ rest))
+  = Ok (map (fun t => go_of D (data_of t)) l, rest).
+Proof.
+  intros D l H. induction H as [| x l Hx Hl IH]; intros f d r rest Hf Hd.
+  - destruct f; [simpl in Hf; lia |]. rewrite arr_def_S. reflexivity.
+  - destruct f; [simpl in Hf; lia |]. rewrite arr_def_S.
+    replace (N.of_nat (length (x :: l)) =? 0) with false by (symmetry; apply N.eqb_neq; cbn [length]; lia).
+    cbn [flat_map] in *. rewrite app_length in Hf. rewrite <- app_assoc. cbn [fold_right] in Hd.
+    pose proof (ser_len_pos x) as Hp.
+    erewrite fst_bindI by (apply Hx; lia). cbv beta iota.
+    replace (N.of_nat (length (x :: l)) - 1) with (N.of_nat (length l)) by (cbn [length]; lia).
+    erewrite fst_bindI by (apply IH; lia). reflexivity.
+Qed.
+
+Lemma arr_indef_ser : forall D l, Forall (dec_ok D) l -> Forall twf l ->
+  forall f d r rest, (2 * length (flat_map ser l) + 2 <= f)%nat ->
+  (d + fold_right (fun x m => Z.max (tdepth D x) m) 0 l < maxdepth D)%Z ->
+  fst (arr_indef D f d r (flat_map ser l ++ 255 :: rest))
+  = Ok (map (fun t => go_of D (data_of t)) l, rest).
+Proof.
+  intros D l H. induction H as [| x l Hx Hl IH]; intros Hw f d r rest Hf Hd.
+  - destruct f; [simpl in Hf; lia |]. cbn [flat_map app]. rewrite arr_indef_S. reflexivity.
+  - inversion Hw as [| ? ? Hwx Hwl]; subst.
+    destruct f; [simpl in Hf; lia |].
+    cbn [flat_map] in *. rewrite app_length in Hf. rewrite <- app_assoc. cbn [fold_right] in Hd.
+    destruct (ser_hd x Hwx) as (bd & tl & E & Hne).
+    assert (E2 : ser x ++ flat_map ser l ++ 255 :: rest = bd :: (tl ++ flat_map ser l ++ 255 :: rest)) by (rewrite E; reflexivity).
+    pose proof (ser_len_pos x) as Hp.
+    rewrite E2. rewrite arr_indef_S.
+    replace (bd =? bdBreak) with false by (symmetry; apply N.eqb_neq; exact Hne).
+    rewrite <- E2.
+    erewrite fst_bindI by (apply Hx; lia). cbv beta iota.
+    erewrite fst_bindI by (apply IH; [assumption | lia | lia]). reflexivity.
+Qed.
+
+Lemma map_def_S : forall D f' d r n seen b,
+  map_def D (S f') d r n seen b =
+  if n =? 0 then (Ok ([], b), r)
+  else doI (kv, b2) <- map_entry (dec D f') d r seen b ;;
+       doI (kvs, b3) <- map_def D f' d r (n - 1) (fst kv :: seen) b2 ;; (Ok (kv :: kvs, b3), r).
+Proof. reflexivity. Qed.
+
+Lemma map_indef_S : forall D f' d r seen bd b0,
+  map_indef D (S f') d r seen (bd :: b0) =
+  if bd =? bdBreak then (Ok ([], b0), r)
+  else doI (kv, b2) <- map_entry (dec D f') d r seen (bd :: b0) ;;
+       doI (kvs, b3) <- map_indef D f' d r (fst kv :: seen) b2 ;; (Ok (kv :: kvs, b3), r).
+Proof. reflexivity. Qed.
+
+Lemma map_entry_ser : forall D k v, dec_ok D k -> dec_ok D v -> twf v ->
+  forall f' d r seen rest,
+  (2 * length (ser k) + 1 <= f')%nat -> (2 * length (ser v) + 1 <= f')%nat ->
+  (d + tdepth D k < maxdepth D)%Z -> (d + tdepth D v < maxdepth D)%Z ->
+  hashable (keynorm (go_of D (data_of k))) = true ->
+  existsb (key_eqb (keynorm (go_of D (data_of k)))) seen = false ->
+  fst (map_entry (dec D f') d r seen (ser k ++ ser v ++ rest))
+  = Ok (keynorm (go_of D (data_of k)), go_of D (data_of v), rest).
+Proof.
+  intros D k v Hk Hv Hwv f' d r seen rest Hfk Hfv Hdk Hdv Hh Hs.
+  unfold map_entry.
+  erewrite fst_bindI by (apply Hk; assumption). cbv beta iota.
+  destruct (ser_hd v Hwv) as (bd & tl & E & _).
+  assert (E2 : ser v ++ rest = bd :: (tl ++ rest)) by (rewrite E; reflexivity).
+  rewrite E2. rewrite Hh. cbn [negb]. rewrite Hs. rewrite <- E2.
+  erewrite fst_bindI by (apply Hv; assumption). reflexivity.
+Qed.
+
+Definition pair_ser (kv : wtree * wtree) : list N := ser (fst kv) ++ ser (snd kv).
+Definition pair_go (D : dopts) (kv : wtree * wtree) : item * item :=
+  (keynorm (go_of D (data_of (fst kv))), go_of D (data_of (snd kv))).
+Definition pair_depth (D : dopts) (kv : wtree * wtree) (m : Z) : Z :=
+  Z.max (Z.max (tdepth D (fst kv)) (tdepth D (snd kv))) m.
+
+Lemma map_def_ser : forall D l,
+  Forall (fun kv => dec_ok D (fst kv) /\ dec_ok D (snd kv)) l ->
+  Forall (fun kv => twf (fst kv) /\ twf (snd kv)) l ->
+  forall f d r seen rest, (2 * length (flat_map pair_ser l) + 2 <= f)%nat ->
+  (d + fold_right (pair_depth D) 0 l < maxdepth D)%Z ->
+  keys_ok D seen l ->
+  fst (map_def D f d r (N.of_nat (length l)) seen (flat_map pair_ser l ++ rest))
+  = Ok (map (pair_go D) l, rest).
+Proof.
+  intros D l H. induction H as [| kv l [Hk Hv] Hl IH]; intros Hw f d r seen rest Hf Hd Hkeys.
+  - destruct f; [simpl in Hf; lia |]. rewrite map_def_S. reflexivity.
+  - inversion Hw as [| ? ? [Hwk Hwv] Hwl]; subst.
+    destruct f; [simpl in Hf; lia |]. rewrite map_def_S.
+    replace (N.of_nat (length (kv :: l)) =? 0) with false by (symmetry; apply N.eqb_neq; cbn [length]; lia).
+    cbn [flat_map] in *. unfold pair_ser at 1 in Hf. unfold pair_ser at 1.
+    rewrite !app_length in Hf. rewrite <- !app_assoc. cbn [fold_right] in Hd. unfold pair_depth at 1 in Hd.
+    pose proof (ser_len_pos (fst kv)) as Hp1. pose proof (ser_len_pos (snd kv)) as Hp2.
+    cbn [keys_ok] in Hkeys. destruct Hkeys as (Hh & Hs & Hkeys).
+    erewrite fst_bindI by (apply map_entry_ser; try assumption; lia). cbv beta iota. cbn [fst].
+    replace (N.of_nat (length (kv :: l)) - 1) with (N.of_nat (length l)) by (cbn [length]; lia).
+    erewrite fst_bindI by (apply IH; [assumption | lia | lia | exact Hkeys]). reflexivity.
+Qed.
+
+Lemma map_indef_ser : forall D l,
+  Forall (fun kv => dec_ok D (fst kv) /\ dec_ok D (snd kv)) l ->
+  Forall (fun kv => twf (fst kv) /\ twf (snd kv)) l ->
+  forall f d r seen rest, (2 * length (flat_map pair_ser l) + 2 <= f)%nat ->
+  (d + fold_right (pair_depth D) 0 l < maxdepth D)%Z ->
+  keys_ok D seen l ->
+  fst (map_indef D f d r seen (flat_map pair_ser l ++ 255 :: rest))
+  = Ok (map (pair_go D) l, rest).
+Proof.
+  intros D l H. induction H as [| kv l [Hk Hv] Hl IH]; intros Hw f d r seen rest Hf Hd Hkeys.
+  - destruct f; [simpl in Hf; lia |]. cbn [flat_map app]. rewrite map_indef_S. reflexivity.
+  - inversion Hw as [| ? ? [Hwk Hwv] Hwl]; subst.
+    destruct f; [simpl in Hf; lia |].
+    cbn [flat_map] in *. unfold pair_ser at 1 in Hf. unfold pair_ser at 1.
+    rewrite !app_length in Hf. rewrite <- !app_assoc. cbn [fold_right] in Hd. unfold pair_depth at 1 in Hd.
+    pose proof (ser_len_pos (fst kv)) as Hp1. pose proof (ser_len_pos (snd kv)) as Hp2.
+    cbn [keys_ok] in Hkeys. destruct Hkeys as (Hh & Hs & Hkeys).
+    destruct (ser_hd (fst kv) Hwk) as (bd & tl & E & Hne).
+    assert (E2 : ser (fst kv) ++ ser (snd kv) ++ flat_map pair_ser l ++ 255 :: rest
+                 = bd :: (tl ++ ser (snd kv) ++ flat_map pair_ser l ++ 255 :: rest)) by (rewrite E; reflexivity).
+    rewrite E2. rewrite map_indef_S.
+    replace (bd =? bdBreak) with false by (symmetry; apply N.eqb_neq; exact Hne).
+    rewrite <- E2.
+    erewrite fst_bindI by (apply map_entry_ser; try assumption; lia). cbv beta iota. cbn [fst].
+    erewrite fst_bindI by (apply IH; [assumption | lia | lia | exact Hkeys]). reflexivity.
+Qed.
+
+(* indefinite-length strings *)
+Definition chunk_ser (mt : N) (c : width * list N) : list N := shead mt (fst c) (N.of_nat (length (snd c))) ++ snd c.
+
+Lemma dec_chunks_ser : forall mt cs,
+  Forall (fun c => fits (fst c) (N.of_nat (length (snd c))) /\ bytes_ok (snd c)) cs ->
+  Forall (fun c => N.of_nat (length (snd c)) < 9223372036854775808) cs ->
+  forall f rest, (length cs + 1 <= f)%nat ->
+  dec_chunks f mt (flat_map (chunk_ser mt) cs ++ 255 :: rest) = Ok (flat_map snd cs, rest).
+Proof.
+  intros mt cs H. induction H as [| c cs [Hfit _] Hcs IH]; intros Hl f rest Hf.
+  - destruct f; [simpl in Hf; lia |]. reflexivity.
+  - inversion Hl as [| ? ? Hlc Hlcs]; subst.
+    destruct f; [simpl in Hf; lia |].
+    cbn [flat_map]. unfold chunk_ser at 1. rewrite shead_cons. rewrite <- !app_assoc. cbn [app dec_chunks].
+    pose proof (ai_of_le _ _ Hfit) as Hai.
+    replace (mt * 32 + ai_of (fst c) (N.of_nat (length (snd c))) =? bdBreak) with false.
+    2:{ symmetry. apply N.eqb_neq. change bdBreak with 255. intro E.
+        assert ((mt * 32 + ai_of (fst c) (N.of_nat (length (snd c)))) mod 32 = 255 mod 32) by (rewrite E; reflexivity).
+        rewrite hd_mod in H by lia. change (255 mod 32) with 31 in H. lia. }
+    rewrite hd_div, hd_mod by lia. rewrite N.eqb_refl. cbn [negb].
+    rewrite dec_len_head by assumption. cbn [bind].
+    rewrite take_app. cbn [bind].
+    rewrite IH by (try assumption; simpl in Hf; lia). reflexivity.
+Qed.
+
+Lemma kind_vals : kind_of_mt 0 = KUint /\ kind_of_mt 1 = KNint /\ kind_of_mt 2 = KBytes /\ kind_of_mt 3 = KText
+  /\ kind_of_mt 4 = KArr /\ kind_of_mt 5 = KMap /\ kind_of_mt 6 = KTag /\ kind_of_mt 7 = KSimple.
+Proof. repeat apply conj; reflexivity. Qed.
+
+Lemma head_neq : forall mt a c, a <= 27 -> c mod 32 = 31 -> (mt * 32 + a =? c) = false.
+Proof.
+  intros. apply N.eqb_neq. intro E.
+  assert ((mt * 32 + a) mod 32 = c mod 32) by (rewrite E; reflexivity).
+  rewrite hd_mod in H1 by lia. lia.
+Qed.
+
+Lemma flat_len_ge {A} (g : A -> list N) : forall l, (forall x, 1 <= length (g x))%nat -> (length l <= length (flat_map g l))%nat.
+Proof. induction l; intros; cbn [flat_map length]; [lia |]. rewrite app_length. specialize (H a) as Ha. specialize (IHl H). lia. Qed.
+
+Lemma dec_tag_plain : forall D f' self d r t b2, 5 < t ->
+  dec_tag D f' self d r t b2 =
+  if (t =? 55799) || do_skiptags D then self d r b2
+  else if depth_ok D d then doI (v, b3) <- self (d + 1)%Z (S r) b2 ;; (Ok (ITag t v, b3), r)
+  else (Err EDepth, r).
+Proof.
+  intros. unfold dec_tag.
+  replace (t =? 0) with false by (symmetry; apply N.eqb_neq; lia).
+  replace (t =? 1) with false by (symmetry; apply N.eqb_neq; lia).
+  replace (t =? 2) with false by (symmetry; apply N.eqb_neq; lia).
+  replace (t =? 3) with false by (symmetry; apply N.eqb_neq; lia).
+  replace (t =? 4) with false by (symmetry; apply N.eqb_neq; lia).
+  replace (t =? 5) with false by (symmetry; apply N.eqb_neq; lia).
+  reflexivity.
+Qed.
+
+Lemma fold_max_nonneg {A} (g : A -> Z) : forall l, (0 <= fold_right (fun x m => Z.max (g x) m) 0 l)%Z.
+Proof. induction l; simpl; lia. Qed.
+
+Theorem dec_ser : forall D t, twf t -> lib_supports D t -> dec_ok D t.
+Proof.
+  intros D t. induction t using wtree_ind'; intros Hw Hs f d r rest Hf Hd;
+    (destruct f as [| f']; [exfalso; lia |]).
+  - (* TUint *)
+    cbn [ser twf lib_supports data_of go_of] in *. rewrite shead_cons. cbn [app]. rewrite dec_S. unfold dec_body.
+    pose proof (ai_of_le _ _ Hw). rewrite kind_head, hd_mod by lia. rewrite (proj1 kind_vals). cbv iota.
+    rewrite fst_liftI, read_uint_head by assumption. cbn [bind].
+    destruct (do_signed D); [| reflexivity].
+    rewrite int64v_pos by (apply Hs; reflexivity). reflexivity.
+  - (* TNint *)
+    cbn [ser twf lib_supports data_of go_of] in *. rewrite shead_cons. cbn [app]. rewrite dec_S. unfold dec_body.
+    pose proof (ai_of_le _ _ Hw). rewrite kind_head, hd_mod by lia. rewrite (proj1 (proj2 kind_vals)). cbv iota.
+    rewrite fst_liftI, read_uint_head by assumption. cbn [bind].
+    rewrite int64v_neg by assumption. reflexivity.
+  - (* TBytes *)
+    cbn [ser twf lib_supports data_of go_of] in *. destruct Hw as [Hw _]. rewrite shead_cons. rewrite <- app_assoc. cbn [app].
+    rewrite dec_S. unfold dec_body.
+    pose proof (ai_of_le _ _ Hw). rewrite kind_head by lia. rewrite (proj1 (proj2 (proj2 kind_vals))). cbv iota.
+    rewrite fst_liftI. unfold dec_str_body.
+    rewrite (head_neq 2 _ bdIndefBytes), (head_neq 2 _ bdIndefString) by (assumption || reflexivity). cbn [orb].
+    rewrite hd_mod by lia. rewrite dec_len_head by assumption. cbn [bind]. rewrite take_app. reflexivity.
+  - (* TBytesI *)
+    cbn [ser twf lib_supports data_of go_of] in *. cbn [app]. rewrite dec_S. unfold dec_body.
+    change (kind_of 95) with KBytes. cbv iota. rewrite fst_liftI. unfold dec_str_body.
+    change ((95 =? bdIndefBytes) || (95 =? bdIndefString)) with true. cbv iota. change (95 / 32) with 2.
+    change (flat_map (fun c => shead 2 (fst c) (N.of_nat (length (snd c))) ++ snd c) cs) with (flat_map (chunk_ser 2) cs).
+    rewrite <- app_assoc. cbn [app].
+    rewrite dec_chunks_ser; [reflexivity | assumption | assumption |].
+    rewrite !app_length in Hf. cbn [length] in Hf.
+    assert (length cs <= length (flat_map (fun c => shead 2 (fst c) (N.of_nat (length (snd c))) ++ snd c) cs))%nat
+      by (apply flat_len_ge; intros; rewrite shead_cons; cbn [app length]; lia).
+    lia.
+  - (* TText *)
+    cbn [ser twf lib_supports data_of go_of] in *. destruct Hw as [Hw _]. rewrite shead_cons. rewrite <- app_assoc. cbn [app].
+    rewrite dec_S. unfold dec_body.
+    pose proof (ai_of_le _ _ Hw). rewrite kind_head by lia. rewrite (proj1 (proj2 (proj2 (proj2 kind_vals)))). cbv iota.
+    rewrite fst_liftI. unfold dec_str_body.
+    rewrite (head_neq 3 _ bdIndefBytes), (head_neq 3 _ bdIndefString) by (assumption || reflexivity). cbn [orb].
+    rewrite hd_mod by lia. rewrite dec_len_head by assumption. cbn [bind]. rewrite take_app. reflexivity.
+  - (* TTextI *)
+    cbn [ser twf lib_supports data_of go_of] in *. cbn [app]. rewrite dec_S. unfold dec_body.
+    change (kind_of 127) with KText. cbv iota. rewrite fst_liftI. unfold dec_str_body.
+    change ((127 =? bdIndefBytes) || (127 =? bdIndefString)) with true. cbv iota. change (127 / 32) with 3.
+    change (flat_map (fun c => shead 3 (fst c) (N.of_nat (length (snd c))) ++ snd c) cs) with (flat_map (chunk_ser 3) cs).
+    rewrite <- app_assoc. cbn [app].
+    rewrite dec_chunks_ser; [reflexivity | assumption | assumption |].
+    rewrite !app_length in Hf. cbn [length] in Hf.
+    assert (length cs <= length (flat_map (fun c => shead 3 (fst c) (N.of_nat (length (snd c))) ++ snd c) cs))%nat
+      by (apply flat_len_ge; intros; rewrite shead_cons; cbn [app length]; lia).
+    lia.
+  - (* TArr *)
+    cbn [ser twf lib_supports data_of go_of tdepth] in *. destruct Hw as [Hw Hwl]. destruct Hs as [Hsl Hlen].
+    apply fix_Forall in Hwl. apply fix_Forall in Hsl.
+    assert (Hok : Forall (dec_ok D) l).
+    { rewrite Forall_forall in *. intros x Hx. apply H; auto. }
+    rewrite shead_cons. rewrite <- app_assoc. cbn [app]. rewrite dec_S. unfold dec_body.
+    pose proof (ai_of_le _ _ Hw). rewrite kind_head by lia. rewrite (proj1 (proj2 (proj2 (proj2 (proj2 kind_vals))))). cbv iota.
+    rewrite (head_neq 4 _ bdIndefArray) by (assumption || reflexivity).
+    rewrite hd_mod by lia.
+    erewrite fst_bindI by (rewrite fst_liftI; apply dec_len_head; assumption). cbv beta iota.
+    pose proof (fold_max_nonneg (tdepth D) l) as Hnn.
+    replace (depth_ok D d) with true by (symmetry; unfold depth_ok; apply Z.ltb_lt; lia).
+    rewrite app_length, shead_cons in Hf. cbn [length] in Hf.
+    erewrite fst_bindI by (apply arr_def_ser; [assumption | lia | lia]). cbv beta iota.
+    rewrite map_map. reflexivity.
+  - (* TArrI *)
+    cbn [ser twf lib_supports data_of go_of tdepth] in *. destruct Hs as [Hsl Hlen].
+    apply fix_Forall in Hw. apply fix_Forall in Hsl.
+    assert (Hok : Forall (dec_ok D) l).
+    { rewrite Forall_forall in *. intros x Hx. apply H; auto. }
+    cbn [app]. rewrite dec_S. unfold dec_body.
+    change (kind_of 159) with KArr. cbv iota. change (159 =? bdIndefArray) with true. cbv iota.
+    pose proof (fold_max_nonneg (tdepth D) l) as Hnn.
+    replace (depth_ok D d) with true by (symmetry; unfold depth_ok; apply Z.ltb_lt; lia).
+    rewrite !app_length in Hf. cbn [length] in Hf. rewrite <- app_assoc. cbn [app].
+    erewrite fst_bindI by (apply arr_indef_ser; [assumption | assumption | lia | lia]). cbv beta iota.
+    rewrite map_map. reflexivity.
+  - (* TMap *)
+    cbn [ser twf lib_supports data_of go_of tdepth] in *. destruct Hw as [Hw Hwl]. destruct Hs as (Hsl & Hkeys & Hlen).
+    apply fix_Forall2 in Hwl. apply fix_Forall2 in Hsl.
+    assert (Hok : Forall (fun kv => dec_ok D (fst kv) /\ dec_ok D (snd kv)) l).
+    { rewrite Forall_forall in *. intros x Hx. specialize (H x Hx). specialize (Hwl x Hx). specialize (Hsl x Hx). split; [apply (proj1 H) | apply (proj2 H)]; tauto. }
+    rewrite shead_cons. rewrite <- app_assoc. cbn [app]. rewrite dec_S. unfold dec_body.
+    pose proof (ai_of_le _ _ Hw). rewrite kind_head by lia. rewrite (proj1 (proj2 (proj2 (proj2 (proj2 (proj2 kind_vals)))))). cbv iota.
+    rewrite (head_neq 5 _ bdIndefMap) by (assumption || reflexivity).
+    rewrite hd_mod by lia.
+    erewrite fst_bindI by (rewrite fst_liftI; apply dec_len_head; assumption). cbv beta iota.
+    pose proof (fold_max_nonneg (fun kv => Z.max (tdepth D (fst kv)) (tdepth D (snd kv))) l) as Hnn.
+    replace (depth_ok D d) with true by (symmetry; unfold depth_ok; apply Z.ltb_lt; lia).
+    rewrite app_length, shead_cons in Hf. cbn [length] in Hf.
+    change (flat_map (fun kv => ser (fst kv) ++ ser (snd kv)) l) with (flat_map pair_ser l) in *.
+    erewrite fst_bindI by (apply map_def_ser; [assumption | assumption | lia | exact ltac:(unfold pair_depth; lia) | assumption]).
+    cbv beta iota. rewrite map_map. reflexivity.
+  - (* TMapI *)
+    cbn [ser twf lib_supports data_of go_of tdepth] in *. destruct Hs as (Hsl & Hkeys & Hlen).
+    apply fix_Forall2 in Hw. apply fix_Forall2 in Hsl.
+    assert (Hok : Forall (fun kv => dec_ok D (fst kv) /\ dec_ok D (snd kv)) l).
+    { rewrite Forall_forall in *. intros x Hx. specialize (H x Hx). specialize (Hw x Hx). specialize (Hsl x Hx). split; [apply (proj1 H) | apply (proj2 H)]; tauto. }
+    cbn [app]. rewrite dec_S. unfold dec_body.
+    change (kind_of 191) with KMap. cbv iota. change (191 =? bdIndefMap) with true. cbv iota.
+    pose proof (fold_max_nonneg (fun kv => Z.max (tdepth D (fst kv)) (tdepth D (snd kv))) l) as Hnn.
+    replace (depth_ok D d) with true by (symmetry; unfold depth_ok; apply Z.ltb_lt; lia).
+    rewrite !app_length in Hf. cbn [length] in Hf. rewrite <- app_assoc. cbn [app].
+    change (flat_map (fun kv => ser (fst kv) ++ ser (snd kv)) l) with (flat_map pair_ser l) in *.
+    erewrite fst_bindI by (apply map_indef_ser; [assumption | assumption | lia | exact ltac:(unfold pair_depth; lia) | assumption]).
+    cbv beta iota. rewrite map_map. reflexivity.
+  - (* TTag *)
+    cbn [ser twf lib_supports data_of go_of tdepth] in *. destruct Hw as [Hw Hwv]. destruct Hs as [Ht Hsv].
+    rewrite shead_cons. rewrite <- app_assoc. cbn [app]. rewrite dec_S. unfold dec_body.
+    pose proof (ai_of_le _ _ Hw). rewrite kind_head by lia.
+    rewrite (proj1 (proj2 (proj2 (proj2 (proj2 (proj2 (proj2 kind_vals))))))). cbv iota.
+    rewrite hd_mod by lia.
+    erewrite fst_bindI by (rewrite fst_liftI; apply read_uint_head; assumption). cbv beta iota.
+    rewrite dec_tag_plain by assumption.
+    rewrite app_length, shead_cons in Hf. cbn [length] in Hf.
+    pose proof (tdepth_nonneg D t0) as Hnn.
+    destruct ((t =? 55799) || do_skiptags D).
+    + apply IHt; [assumption | assumption | lia | lia].
+    + replace (depth_ok D d) with true by (symmetry; unfold depth_ok; apply Z.ltb_lt; lia).
+      erewrite fst_bindI by (apply IHt; [assumption | assumption | lia | lia]). reflexivity.
+  - (* TSimple *)
+    cbn [ser twf lib_supports data_of go_of] in *. cbn [app]. rewrite dec_S. unfold dec_body.
+    assert (C : v = 20 \/ v = 21 \/ v = 22 \/ v = 23) by lia.
+    destruct C as [C | [C | [C | C]]]; subst v; reflexivity.
+  - (* TSimple1 *)
+    cbn [lib_supports] in Hs. contradiction.
+  - (* THalf *)
+    cbn [ser twf lib_supports data_of go_of] in *. cbn [app]. rewrite dec_S. unfold dec_body.
+    change (kind_of 249) with KSimple. cbv iota. unfold dec_simple.
+    change ((249 =? bdNil) || (249 =? bdUndefined)) with false. change (249 =? bdFalse) with false.
+    change (249 =? bdTrue) with false. change (249 =? bdFloat16) with true. cbv iota.
+    rewrite fst_liftI. rewrite (take_sbe 2). cbn [bind]. rewrite be_get_put by (simpl; lia).
+    rewrite half_all by assumption. reflexivity.
+  - (* TSingle *)
+    cbn [ser twf lib_supports data_of go_of] in *. cbn [app]. rewrite dec_S. unfold dec_body.
+    change (kind_of 250) with KSimple. cbv iota. unfold dec_simple.
+    change ((250 =? bdNil) || (250 =? bdUndefined)) with false. change (250 =? bdFalse) with false.
+    change (250 =? bdTrue) with false. change (250 =? bdFloat16) with false. change (250 =? bdFloat32) with true. cbv iota.
+    rewrite fst_liftI. rewrite (take_sbe 4). cbn [bind]. rewrite be_get_put by (simpl; lia). reflexivity.
+  - (* TDouble *)
+    cbn [ser twf lib_supports data_of go_of] in *. cbn [app]. rewrite dec_S. unfold dec_body.
+    change (kind_of 251) with KSimple. cbv iota. unfold dec_simple.
+    change ((251 =? bdNil) || (251 =? bdUndefined)) with false. change (251 =? bdFalse) with false.
+    change (251 =? bdTrue) with false. change (251 =? bdFloat16) with false. change (251 =? bdFloat32) with false.
+    change (251 =? bdFloat64) with true. cbv iota.
+    rewrite fst_liftI. rewrite (take_sbe 8). cbn [bind]. rewrite be_get_put by (simpl; lia). reflexivity.
+Qed.
+
+(* ------------------------------------------------------------------ *)
+(* the encoder's output is one of the well-formed serialisations: enc O i = ser (tree_of O i) *)
+Lemma minw_fits : forall v, v < 18446744073709551616 -> fits (minw v) v.
+Proof.
+  intros v H. unfold minw.
+  destruct (v <=? 23) eqn:E1; [apply N.leb_le in E1; simpl; lia |].
+  destruct (v <=? 255) eqn:E2; [apply N.leb_le in E2; simpl; lia |].
+  destruct (v <=? 65535) eqn:E3; [apply N.leb_le in E3; simpl; lia |].
+  destruct (v <=? 4294967295) eqn:E4; [apply N.leb_le in E4; simpl; lia |].
+  simpl. assumption.
+Qed.
+
+Lemma enc_head_shead : forall mt v, mt <= 7 -> enc_head (mt * 32) v = shead mt (minw v) v.
+Proof.
+  intros mt v Hm. unfold enc_head, minw.
+  destruct (v <=? 23) eqn:E1.
+  { apply N.leb_le in E1. rewrite shead_cons. cbn [ai_of wbytes sbe]. rewrite N.mod_small by lia. f_equal. lia. }
+  destruct (v <=? 255) eqn:E2.
+  { apply N.leb_le in E2. apply N.leb_gt in E1. rewrite shead_cons. cbn [ai_of wbytes sbe app]. rewrite N.mod_small by lia.
+    rewrite (N.mod_small v) by lia. reflexivity. }
+  destruct (v <=? 65535) eqn:E3.
+  { rewrite shead_cons. cbn [ai_of wbytes]. rewrite N.mod_small by lia. rewrite be_put_sbe. reflexivity. }
+  destruct (v <=? 4294967295) eqn:E4.
+  { rewrite shead_cons. cbn [ai_of wbytes]. rewrite N.mod_small by lia. rewrite be_put_sbe. reflexivity. }
+  rewrite shead_cons. cbn [ai_of wbytes]. rewrite N.mod_small by lia. rewrite be_put_sbe. reflexivity.
+Qed.
+
+Lemma flat_map_map {A B C} (g : A -> B) (h : B -> list C) : forall l, flat_map h (map g l) = flat_map (fun x => h (g x)) l.
+Proof. induction l; simpl; [reflexivity | rewrite IHl; reflexivity]. Qed.
+
+Lemma flat_map_ext_in {A B} (g h : A -> list B) : forall l, (forall x, In x l -> g x = h x) -> flat_map g l = flat_map h l.
+Proof. induction l; simpl; intros; [reflexivity |]. rewrite H by auto. rewrite IHl by auto. reflexivity. Qed.
+
+Lemma enc_str_ser : forall (O : eopts) (text : bool) (s : list N),
+  enc_str O (if text then baseString else baseBytes) s = ser (str_tree O text s).
+Proof.
+  intros O text s. unfold enc_str, str_tree.
+  destruct (eo_indef O).
+  - destruct text; cbn [ser]; rewrite flat_map_map; cbn [fst snd].
+    + change (baseString =? baseBytes) with false. cbv iota. change bdIndefString with 127. change bdBreak with 255.
+      do 2 f_equal. apply flat_map_ext_in. intros c _. change baseString with (3 * 32). rewrite enc_head_shead by lia. reflexivity.
+    + change (baseBytes =? baseBytes) with true. cbv iota. change bdIndefBytes with 95. change bdBreak with 255.
+      do 2 f_equal. apply flat_map_ext_in. intros c _. change baseBytes with (2 * 32). rewrite enc_head_shead by lia. reflexivity.
+  - destruct text; cbn [ser].
+    + change baseString with (3 * 32). rewrite enc_head_shead by lia. reflexivity.
+    + change baseBytes with (2 * 32). rewrite enc_head_shead by lia. reflexivity.
+Qed.
+
+Theorem enc_ser : forall (O : eopts) (i : item), eo_optsize O = false -> plain i -> enc O i = ser (tree_of O i).
+Proof.
+  intros O i Ho. induction i using item_ind'; intros Hp; cbn [enc tree_of plain] in *.
+  - reflexivity.
+  - destruct b; reflexivity.
+  - unfold enc_int, int_tree. destruct (z <? 0)%Z; cbn [ser].
+    + change baseNegInt with (1 * 32). apply enc_head_shead. lia.
+    + change baseUint with (0 * 32). apply enc_head_shead. lia.
+  - cbn [ser]. change baseUint with (0 * 32). apply enc_head_shead. lia.
+  - unfold enc_f32. rewrite Ho. cbn [andb ser]. rewrite be_put_sbe. reflexivity.
+  - unfold enc_f64. rewrite Ho. cbn [andb ser]. rewrite be_put_sbe. reflexivity.
+  - destruct (eo_str2raw O); cbn [negb]; [apply (enc_str_ser O false) | apply (enc_str_ser O true)].
+  - apply (enc_str_ser O false).
+  - destruct Hp as [Hp Hlen]. apply fix_Forall in Hp.
+    assert (E : flat_map (enc O) l = flat_map ser (map (tree_of O) l)).
+    { rewrite flat_map_map. apply flat_map_ext_in. intros x Hx. rewrite Forall_forall in H, Hp. apply H; auto. }
+    destruct l as [| x l'].
+    + destruct (eo_indef O); reflexivity.
+    + rewrite E. destruct (eo_indef O); cbn [ser].
+      * reflexivity.
+      * rewrite app_nil_r. change baseArray with (4 * 32). rewrite enc_head_shead by lia. rewrite map_length. reflexivity.
+  - destruct Hp as [Hp Hlen]. apply fix_Forall2 in Hp.
+    assert (E : flat_map (fun kv => enc O (fst kv) ++ enc O (snd kv)) l
+                = flat_map (fun kv => ser (fst kv) ++ ser (snd kv)) (map (fun kv => (tree_of O (fst kv), tree_of O (snd kv))) l)).
+    { rewrite flat_map_map. cbn [fst snd]. apply flat_map_ext_in. intros x Hx. rewrite Forall_forall in H, Hp.
+      destruct (H x Hx) as [H1 H2]. destruct (Hp x Hx) as [P1 P2]. rewrite H1, H2 by assumption. reflexivity. }
+    destruct l as [| x l'].
+    + destruct (eo_indef O); reflexivity.
+    + rewrite E. destruct (eo_indef O); cbn [ser].
+      * reflexivity.
+      * rewrite app_nil_r. change baseMap with (5 * 32). rewrite enc_head_shead by lia. rewrite map_length. reflexivity.
+  - destruct Hp as [Ht Hp]. cbn [ser]. rewrite IHi by assumption. change baseTag with (6 * 32). rewrite enc_head_shead by lia. reflexivity.
+  - contradiction.
+  - contradiction.
+Qed.
+
+(* ------------------------------------------------------------------ *)
+(* the specification's decoder reads back every well-formed serialisation *)
+Lemma stake_app : forall x rest, stake (N.of_nat (length x)) (x ++ rest) = Some (x, rest).
+Proof.
+  intros. unfold stake. rewrite app_length.
+  replace (N.of_nat (length x + length rest) <? N.of_nat (length x)) with false by (symmetry; apply N.ltb_ge; lia).
+  rewrite Nat2N.id, firstn_app_len, skipn_app_len. reflexivity.
+Qed.
+Lemma stake_sbe : forall k v rest, stake (N.of_nat k) (sbe k v ++ rest) = Some (sbe k v, rest).
+Proof. intros. rewrite <- (length_sbe k v) at 1. apply stake_app. Qed.
+
+Lemma sarg_head : forall w v rest, fits w v -> sarg (ai_of w v) (sbe (wbytes w) v ++ rest) = Some (v, rest).
+Proof.
+  intros w v rest H. unfold sarg. destruct w; cbn [ai_of wbytes].
+  - simpl in H. replace (v <? 24) with true by (symmetry; apply N.ltb_lt; lia). reflexivity.
+  - change (24 <? 24) with false. change (24 =? 24) with true. cbv iota.
+    rewrite (stake_sbe 1). rewrite <- be_get_sget, be_get_put by (simpl in *; lia). reflexivity.
+  - change (25 <? 24) with false. change (25 =? 24) with false. change (25 =? 25) with true. cbv iota.
+    rewrite (stake_sbe 2). rewrite <- be_get_sget, be_get_put by (simpl in *; lia). reflexivity.
+  - change (26 <? 24) with false. change (26 =? 24) with false. change (26 =? 25) with false. change (26 =? 26) with true. cbv iota.
+    rewrite (stake_sbe 4). rewrite <- be_get_sget, be_get_put by (simpl in *; lia). reflexivity.
+  - change (27 <? 24) with false. change (27 =? 24) with false. change (27 =? 25) with false. change (27 =? 26) with false.
+    change (27 =? 27) with true. cbv iota.
+    rewrite (stake_sbe 8). rewrite <- be_get_sget, be_get_put by (simpl in *; lia). reflexivity.
+Qed.
+
+Definition spec_ok (t : wtree) : Prop :=
+  forall f rest, (2 * length (ser t) + 1 <= f)%nat -> spec_dec f (ser t ++ rest) = Some (data_of t, rest).
+
+Lemma spec_dec_S : forall f' ib b1,
+  spec_dec (S f') (ib :: b1) =
+  spec_body f' (spec_dec f') (spec_n f') (spec_until f') (spec_pairs_n f') (spec_pairs_until f') ib b1.
+Proof. reflexivity. Qed.
+Lemma spec_n_S : forall f' n b,
+  spec_n (S f') n b =
+  if n =? 0 then Some ([], b)
+  else match spec_dec f' b with
+       | Some (x, b1) => match spec_n f' (n - 1) b1 with Some (xs, b2) => Some (x :: xs, b2) | None => None end
+       | None => None
+       end.
+Proof. reflexivity. Qed.
+Lemma spec_until_S : forall f' ib b1,
+  spec_until (S f') (ib :: b1) =
+  if ib =? 255 then Some ([], b1)
+  else match spec_dec f' (ib :: b1) with
+       | Some (x, b2) => match spec_until f' b2 with Some (xs, b3) => Some (x :: xs, b3) | None => None end
+       | None => None
+       end.
+Proof. reflexivity. Qed.
+Lemma spec_pairs_n_S : forall f' n b,
+  spec_pairs_n (S f') n b =
+  if n =? 0 then Some ([], b)
+  else match spec_dec f' b with
+       | Some (k, b1) =>
+           match spec_dec f' b1 with
+           | Some (v, b2) => match spec_pairs_n f' (n - 1) b2 with Some (xs, b3) => Some ((k, v) :: xs, b3) | None => None end
+           | None => None
+           end
+       | None => None
+       end.
+Proof. reflexivity. Qed.
+Lemma spec_pairs_until_S : forall f' ib b1,
+  spec_pairs_until (S f') (ib :: b1) =
+  if ib =? 255 then Some ([], b1)
+  else match spec_dec f' (ib :: b1) with
+       | Some (k, b2) =>
+           match spec_dec f' b2 with
+           | Some (v, b3) => match spec_pairs_until f' b3 with Some (xs, b4) => Some ((k, v) :: xs, b4) | None => None end
+           | None => None
+           end
+       | None => None
+       end.
+Proof. reflexivity. Qed.
+
+Lemma spec_n_ser : forall l, Forall spec_ok l ->
+  forall f rest, (2 * length (flat_map ser l) + 2 <= f)%nat ->
+  spec_n f (N.of_nat (length l)) (flat_map ser l ++ rest) = Some (map data_of l, rest).
+Proof.
+  intros l H. induction H as [| x l Hx Hl IH]; intros f rest Hf.
+  - destruct f; [simpl in Hf; lia |]. reflexivity.
+  - destruct f; [simpl in Hf; lia |]. rewrite spec_n_S.
+    replace (N.of_nat (length (x :: l)) =? 0) with false by (symmetry; apply N.eqb_neq; cbn [length]; lia).
+    cbn [flat_map] in *. rewrite app_length in Hf. rewrite <- app_assoc. pose proof (ser_len_pos x).
+    rewrite Hx by lia.
+    replace (N.of_nat (length (x :: l)) - 1) with (N.of_nat (length l)) by (cbn [length]; lia).
+    rewrite IH by lia. reflexivity.
+Qed.
+
+Lemma spec_until_ser : forall l, Forall spec_ok l -> Forall twf l ->
+  forall f rest, (2 * length (flat_map ser l) + 2 <= f)%nat ->
+  spec_until f (flat_map ser l ++ 255 :: rest) = Some (map data_of l, rest).
+Proof.
+  intros l H. induction H as [| x l Hx Hl IH]; intros Hw f rest Hf.
+  - destruct f; [simpl in Hf; lia |]. reflexivity.
+  - inversion Hw as [| ? ? Hwx Hwl]; subst.
+    destruct f; [simpl in Hf; lia |].
+    cbn [flat_map] in *. rewrite app_length in Hf. rewrite <- app_assoc. pose proof (ser_len_pos x).
+    destruct (ser_hd x Hwx) as (bd & tl & E & Hne).
+    assert (E2 : ser x ++ flat_map ser l ++ 255 :: rest = bd :: (tl ++ flat_map ser l ++ 255 :: rest)) by (rewrite E; reflexivity).
+    rewrite E2. rewrite spec_until_S.
+    replace (bd =? 255) with false by (symmetry; apply N.eqb_neq; exact Hne).
+    rewrite <- E2. rewrite Hx by lia. rewrite IH by (assumption || lia). reflexivity.
+Qed.
+
+Lemma spec_pairs_n_ser : forall l, Forall (fun kv => spec_ok (fst kv) /\ spec_ok (snd kv)) l ->
+  forall f rest, (2 * length (flat_map pair_ser l) + 2 <= f)%nat ->
+  spec_pairs_n f (N.of_nat (length l)) (flat_map pair_ser l ++ rest)
+  = Some (map (fun kv => (data_of (fst kv), data_of (snd kv))) l, rest).
+Proof.
+  intros l H. induction H as [| kv l [Hk Hv] Hl IH]; intros f rest Hf.
+  - destruct f; [simpl in Hf; lia |]. reflexivity.
+  - destruct f; [simpl in Hf; lia |]. rewrite spec_pairs_n_S.
+    replace (N.of_nat (length (kv :: l)) =? 0) with false by (symmetry; apply N.eqb_neq; cbn [length]; lia).
+    cbn [flat_map] in *. unfold pair_ser at 1 in Hf. unfold pair_ser at 1.
+    rewrite !app_length in Hf. rewrite <- !app_assoc.
+    pose proof (ser_len_pos (fst kv)). pose proof (ser_len_pos (snd kv)).
+    rewrite Hk by lia. rewrite Hv by lia.
+    replace (N.of_nat (length (kv :: l)) - 1) with (N.of_nat (length l)) by (cbn [length]; lia).
+    rewrite IH by lia. reflexivity.
+Qed.
+
+Lemma spec_pairs_until_ser : forall l, Forall (fun kv => spec_ok (fst kv) /\ spec_ok (snd kv)) l ->
+  Forall (fun kv => twf (fst kv) /\ twf (snd kv)) l ->
+  forall f rest, (2 * length (flat_map pair_ser l) + 2 <= f)%nat ->
+  spec_pairs_until f (flat_map pair_ser l ++ 255 :: rest)
+  = Some (map (fun kv => (data_of (fst kv), data_of (snd kv))) l, rest).
+Proof.
+  intros l H. induction H as [| kv l [Hk Hv] Hl IH]; intros Hw f rest Hf.
+  - destruct f; [simpl in Hf; lia |]. reflexivity.
+  - inversion Hw as [| ? ? [Hwk Hwv] Hwl]; subst.
+    destruct f; [simpl in Hf; lia |].
+    cbn [flat_map] in *. unfold pair_ser at 1 in Hf. unfold pair_ser at 1.
+    rewrite !app_length in Hf. rewrite <- !app_assoc.
+    pose proof (ser_len_pos (fst kv)). pose proof (ser_len_pos (snd kv)).
+    destruct (ser_hd (fst kv) Hwk) as (bd & tl & E & Hne).
+    assert (E2 : ser (fst kv) ++ ser (snd kv) ++ flat_map pair_ser l ++ 255 :: rest
+                 = bd :: (tl ++ ser (snd kv) ++ flat_map pair_ser l ++ 255 :: rest)) by (rewrite E; reflexivity).
+    rewrite E2. rewrite spec_pairs_until_S.
+    replace (bd =? 255) with false by (symmetry; apply N.eqb_neq; exact Hne).
+    rewrite <- E2. rewrite Hk by lia. rewrite Hv by lia. rewrite IH by (assumption || lia). reflexivity.
+Qed.
+
+Lemma schunks_ser : forall mt cs,
+  Forall (fun c => fits (fst c) (N.of_nat (length (snd c))) /\ bytes_ok (snd c)) cs ->
+  forall f rest, (length cs + 1 <= f)%nat ->
+  schunks f mt (flat_map (chunk_ser mt) cs ++ 255 :: rest) = Some (flat_map snd cs, rest).
+Proof.
+  intros mt cs H. induction H as [| c cs [Hfit _] Hcs IH]; intros f rest Hf.
+  - destruct f; [simpl in Hf; lia |]. reflexivity.
+  - destruct f; [simpl in Hf; lia |].
+    cbn [flat_map]. unfold chunk_ser at 1. rewrite shead_cons. rewrite <- !app_assoc. cbn [app schunks].
+    pose proof (ai_of_le _ _ Hfit) as Hai.
+    rewrite (head_neq mt _ 255) by (assumption || reflexivity).
+    rewrite hd_div, hd_mod by lia. rewrite N.eqb_refl.
+    replace (ai_of (fst c) (N.of_nat (length (snd c))) =? 31) with false by (symmetry; apply N.eqb_neq; lia).
+    cbn [negb andb].
+    rewrite sarg_head by assumption. rewrite stake_app.
+    rewrite IH by (simpl in Hf; lia). reflexivity.
+Qed.
+
+Lemma spec_resv : forall a, a <= 27 -> (28 <=? a) && (a <=? 30) = false.
+Proof. intros. replace (28 <=? a) with false by (symmetry; apply N.leb_gt; lia). reflexivity. Qed.
+
+Theorem spec_ser : forall t, twf t -> spec_ok t.
+Proof.
+  intros t. induction t using wtree_ind'; intros Hw f rest Hf; (destruct f as [| f']; [exfalso; lia |]).
+  - cbn [ser twf data_of] in *. rewrite shead_cons. cbn [app]. rewrite spec_dec_S. unfold spec_body.
+    pose proof (ai_of_le _ _ Hw). rewrite hd_div, hd_mod by lia. rewrite spec_resv by assumption.
+    cbn [N.eqb]. rewrite sarg_head by assumption. reflexivity.
+  - cbn [ser twf data_of] in *. rewrite shead_cons. cbn [app]. rewrite spec_dec_S. unfold spec_body.
+    pose proof (ai_of_le _ _ Hw). rewrite hd_div, hd_mod by lia. rewrite spec_resv by assumption.
+    change (1 =? 0) with false. change (1 =? 1) with true. cbv iota. rewrite sarg_head by assumption. reflexivity.
+  - cbn [ser twf data_of] in *. destruct Hw as [Hw _]. rewrite shead_cons. rewrite <- app_assoc. cbn [app].
+    rewrite spec_dec_S. unfold spec_body.
+    pose proof (ai_of_le _ _ Hw). rewrite hd_div, hd_mod by lia. rewrite spec_resv by assumption.
+    change (2 =? 0) with false. change (2 =? 1) with false. change ((2 =? 2) || (2 =? 3)) with true. cbv iota.
+    replace (ai_of w (N.of_nat (length s)) =? 31) with false by (symmetry; apply N.eqb_neq; lia).
+    rewrite sarg_head by assumption. rewrite stake_app. reflexivity.
+  - cbn [ser twf data_of] in *. cbn [app]. rewrite spec_dec_S. unfold spec_body.
+    change (95 / 32) with 2. change (95 mod 32) with 31. change ((28 <=? 31) && (31 <=? 30)) with false.
+    change (2 =? 0) with false. change (2 =? 1) with false. change ((2 =? 2) || (2 =? 3)) with true.
+    change (31 =? 31) with true. cbv iota.
+    change (flat_map (fun c => shead 2 (fst c) (N.of_nat (length (snd c))) ++ snd c) cs) with (flat_map (chunk_ser 2) cs).
+    rewrite <- app_assoc. cbn [app]. rewrite schunks_ser; [reflexivity | assumption |].
+    rewrite !app_length in Hf. cbn [length] in Hf.
+    assert (length cs <= length (flat_map (fun c => shead 2 (fst c) (N.of_nat (length (snd c))) ++ snd c) cs))%nat
+      by (apply flat_len_ge; intros; rewrite shead_cons; cbn [app length]; lia).
+    lia.
+  - cbn [ser twf data_of] in *. destruct Hw as [Hw _]. rewrite shead_cons. rewrite <- app_assoc. cbn [app].
+    rewrite spec_dec_S. unfold spec_body.
+    pose proof (ai_of_le _ _ Hw). rewrite hd_div, hd_mod by lia. rewrite spec_resv by assumption.
+    change (3 =? 0) with false. change (3 =? 1) with false. change ((3 =? 2) || (3 =? 3)) with true. cbv iota.
+    replace (ai_of w (N.of_nat (length s)) =? 31) with false by (symmetry; apply N.eqb_neq; lia).
+    rewrite sarg_head by assumption. rewrite stake_app. reflexivity.
+  - cbn [ser twf data_of] in *. cbn [app]. rewrite spec_dec_S. unfold spec_body.
+    change (127 / 32) with 3. change (127 mod 32) with 31. change ((28 <=? 31) && (31 <=? 30)) with false.
+    change (3 =? 0) with false. change (3 =? 1) with false. change ((3 =? 2) || (3 =? 3)) with true.
+    change (31 =? 31) with true. cbv iota.
+    change (flat_map (fun c => shead 3 (fst c) (N.of_nat (length (snd c))) ++ snd c) cs) with (flat_map (chunk_ser 3) cs).
+    rewrite <- app_assoc. cbn [app]. rewrite schunks_ser; [reflexivity | assumption |].
+    rewrite !app_length in Hf. cbn [length] in Hf.
+    assert (length cs <= length (flat_map (fun c => shead 3 (fst c) (N.of_nat (length (snd c))) ++ snd c) cs))%nat
+      by (apply flat_len_ge; intros; rewrite shead_cons; cbn [app length]; lia).
+    lia.
+  - cbn [ser twf data_of] in *. destruct Hw as [Hw Hwl]. apply fix_Forall in Hwl.
+    assert (Hok : Forall spec_ok l) by (rewrite Forall_forall in *; intros x Hx; apply H; auto).
+    rewrite shead_cons. rewrite <- app_assoc. cbn [app]. rewrite spec_dec_S. unfold spec_body.
+    pose proof (ai_of_le _ _ Hw). rewrite hd_div, hd_mod by lia. rewrite spec_resv by assumption.
+    change (4 =? 0) with false. change (4 =? 1) with false. change ((4 =? 2) || (4 =? 3)) with false. change (4 =? 4) with true. cbv iota.
+    replace (ai_of w (N.of_nat (length l)) =? 31) with false by (symmetry; apply N.eqb_neq; lia).
+    rewrite sarg_head by assumption.
+    rewrite app_length, shead_cons in Hf. cbn [length] in Hf.
+    rewrite spec_n_ser by (assumption || lia). reflexivity.
+  - cbn [ser twf data_of] in *. apply fix_Forall in Hw.
+    assert (Hok : Forall spec_ok l) by (rewrite Forall_forall in *; intros x Hx; apply H; auto).
+    cbn [app]. rewrite spec_dec_S. unfold spec_body.
+    change (159 / 32) with 4. change (159 mod 32) with 31. change ((28 <=? 31) && (31 <=? 30)) with false.
+    change (4 =? 0) with false. change (4 =? 1) with false. change ((4 =? 2) || (4 =? 3)) with false. change (4 =? 4) with true.
+    change (31 =? 31) with true. cbv iota.
+    rewrite !app_length in Hf. cbn [length] in Hf. rewrite <- app_assoc. cbn [app].
+    rewrite spec_until_ser by (assumption || lia). reflexivity.
+  - cbn [ser twf data_of] in *. destruct Hw as [Hw Hwl]. apply fix_Forall2 in Hwl.
+    assert (Hok : Forall (fun kv => spec_ok (fst kv) /\ spec_ok (snd kv)) l).
+    { rewrite Forall_forall in *. intros x Hx. specialize (H x Hx). specialize (Hwl x Hx). split; [apply (proj1 H) | apply (proj2 H)]; tauto. }
+    rewrite shead_cons. rewrite <- app_assoc. cbn [app]. rewrite spec_dec_S. unfold spec_body.
+    pose proof (ai_of_le _ _ Hw). rewrite hd_div, hd_mod by lia. rewrite spec_resv by assumption.
+    change (5 =? 0) with false. change (5 =? 1) with false. change ((5 =? 2) || (5 =? 3)) with false. change (5 =? 4) with false.
+    change (5 =? 5) with true. cbv iota.
+    replace (ai_of w (N.of_nat (length l)) =? 31) with false by (symmetry; apply N.eqb_neq; lia).
+    rewrite sarg_head by assumption.
+    rewrite app_length, shead_cons in Hf. cbn [length] in Hf.
+    change (flat_map (fun kv => ser (fst kv) ++ ser (snd kv)) l) with (flat_map pair_ser l) in *.
+    rewrite spec_pairs_n_ser by (assumption || lia). reflexivity.
+  - cbn [ser twf data_of] in *. apply fix_Forall2 in Hw.
+    assert (Hok : Forall (fun kv => spec_ok (fst kv) /\ spec_ok (snd kv)) l).
+    { rewrite Forall_forall in *. intros x Hx. specialize (H x Hx). specialize (Hw x Hx). split; [apply (proj1 H) | apply (proj2 H)]; tauto. }
+    cbn [app]. rewrite spec_dec_S. unfold spec_body.
+    change (191 / 32) with 5. change (191 mod 32) with 31. change ((28 <=? 31) && (31 <=? 30)) with false.
+    change (5 =? 0) with false. change (5 =? 1) with false. change ((5 =? 2) || (5 =? 3)) with false. change (5 =? 4) with false.
+    change (5 =? 5) with true. change (31 =? 31) with true. cbv iota.
+    rewrite !app_length in Hf. cbn [length] in Hf. rewrite <- app_assoc. cbn [app].
+    change (flat_map (fun kv => ser (fst kv) ++ ser (snd kv)) l) with (flat_map pair_ser l) in *.
+    rewrite spec_pairs_until_ser by (assumption || lia). reflexivity.
+  - cbn [ser twf data_of] in *. destruct Hw as [Hw Hwv].
+    rewrite shead_cons. rewrite <- app_assoc. cbn [app]. rewrite spec_dec_S. unfold spec_body.
+    pose proof (ai_of_le _ _ Hw). rewrite hd_div, hd_mod by lia. rewrite spec_resv by assumption.
+    change (6 =? 0) with false. change (6 =? 1) with false. change ((6 =? 2) || (6 =? 3)) with false. change (6 =? 4) with false.
+    change (6 =? 5) with false. change (6 =? 6) with true. cbv iota.
+    replace (ai_of w t =? 31) with false by (symmetry; apply N.eqb_neq; lia).
+    rewrite sarg_head by assumption.
+    rewrite app_length, shead_cons in Hf. cbn [length] in Hf.
+    rewrite IHt by (assumption || lia). reflexivity.
+  - cbn [ser twf data_of] in *. cbn [app]. rewrite spec_dec_S. unfold spec_body.
+    replace (224 + v) with (7 * 32 + v) by lia. rewrite hd_div, hd_mod by lia. rewrite spec_resv by lia.
+    change (7 =? 0) with false. change (7 =? 1) with false. change ((7 =? 2) || (7 =? 3)) with false. change (7 =? 4) with false.
+    change (7 =? 5) with false. change (7 =? 6) with false. cbv iota.
+    replace (v <? 24) with true by (symmetry; apply N.ltb_lt; assumption). reflexivity.
+  - cbn [ser twf data_of] in *. cbn [app]. rewrite spec_dec_S. unfold spec_body.
+    change (248 / 32) with 7. change (248 mod 32) with 24. cbn [N.leb N.eqb N.ltb andb orb].
+    replace (v <? 32) with false by (symmetry; apply N.ltb_ge; lia). reflexivity.
+  - cbn [ser twf data_of] in *. cbn [app]. rewrite spec_dec_S. unfold spec_body.
+    change (249 / 32) with 7. change (249 mod 32) with 25. cbn [N.leb N.eqb N.ltb andb orb].
+    rewrite (stake_sbe 2). rewrite <- be_get_sget, be_get_put by (simpl; lia). reflexivity.
+  - cbn [ser twf data_of] in *. cbn [app]. rewrite spec_dec_S. unfold spec_body.
+    change (250 / 32) with 7. change (250 mod 32) with 26. cbn [N.leb N.eqb N.ltb andb orb].
+    rewrite (stake_sbe 4). rewrite <- be_get_sget, be_get_put by (simpl; lia). reflexivity.
+  - cbn [ser twf data_of] in *. cbn [app]. rewrite spec_dec_S. unfold spec_body.
+    change (251 / 32) with 7. change (251 mod 32) with 27. cbn [N.leb N.eqb N.ltb andb orb].
+    rewrite (stake_sbe 8). rewrite <- be_get_sget, be_get_put by (simpl; lia). reflexivity.
+Qed.
+
+(* ------------------------------------------------------------------ *)
+(* the data carried by an item, read off the item alone *)
+Fixpoint sdata_of (O : eopts) (i : item) : sdata :=
+  match i with
+  | INil => DSimple 22
+  | IBool b => DSimple (if b then 21 else 20)
+  | IInt z => if (z <? 0)%Z then DNint (Z.to_N (-1 - z)) else DUint (Z.to_N z)
+  | IUint n => DUint n
+  | IF32 b => DFloat 32 b
+  | IF64 b => DFloat 64 b
+  | IStr s => if eo_str2raw O then DBytes s else DText s      (* StringToRaw: documented *)
+  | IBytes s => DBytes s
+  | IArr l => DArr (map (sdata_of O) l)
+  | IMap l => DMap (map (fun kv => (sdata_of O (fst kv), sdata_of O (snd kv))) l)
+  | ITag t v => DTag t (sdata_of O v)
+  | IExt _ _ | ITime _ _ => DSimple 22
+  end.
+
+Lemma Forall_firstn' {A} (P : A -> Prop) : forall n l, Forall P l -> Forall P (firstn n l).
+Proof. induction n; intros; simpl; [constructor |]. destruct l; [constructor |]. inversion H; subst. constructor; auto. Qed.
+Lemma Forall_skipn' {A} (P : A -> Prop) : forall n l, Forall P l -> Forall P (skipn n l).
+Proof. induction n; intros; simpl; [assumption |]. destruct l; [constructor |]. inversion H; subst. auto. Qed.
+
+Lemma chunks_concat : forall f n s, (0 < n)%nat -> (length s <= f)%nat -> flat_map (fun c => c) (chunks f n s) = s.
+Proof.
+  induction f; intros n s Hn Hl.
+  - destruct s; [reflexivity | simpl in Hl; lia].
+  - destruct s as [| x s']; [reflexivity |].
+    cbn [chunks flat_map]. rewrite IHf.
+    + apply firstn_skipn.
+    + assumption.
+    + rewrite skipn_length. cbn [length] in *. lia.
+Qed.
+
+Lemma chunks_Forall (P Q : list N -> Prop) :
+  (forall l n, Q l -> Q (skipn n l)) -> (forall l k, Q l -> P (firstn k l)) ->
+  forall f n s, Q s -> Forall P (chunks f n s).
+Proof.
+  intros Hs Hf. induction f; intros n s H; [constructor |].
+  destruct s as [| x s']; [constructor |].
+  cbn [chunks]. constructor; [apply Hf; assumption | apply IHf; apply Hs; assumption].
+Qed.
+
+Lemma chunk_len_pos : forall k, (0 < chunk_len k)%nat.
+Proof. intros. unfold chunk_len. lia. Qed.
+
+Lemma str_tree_data : forall (O : eopts) (text : bool) (s : list N),
+  data_of (str_tree O text s) = if text then DText s else DBytes s.
+Proof.
+  intros. unfold str_tree. destruct (eo_indef O); destruct text; cbn [data_of]; try reflexivity.
+  - rewrite flat_map_map. cbn [snd]. rewrite chunks_concat by (apply chunk_len_pos || lia). reflexivity.
+  - rewrite flat_map_map. cbn [snd]. rewrite chunks_concat by (apply chunk_len_pos || lia). reflexivity.
+Qed.
+
+Lemma str_tree_twf : forall (O : eopts) (text : bool) (s : list N),
+  bytes_ok s -> N.of_nat (length s) < 18446744073709551616 -> twf (str_tree O text s).
+Proof.
+  intros O text s Hb Hl. unfold str_tree.
+  assert (Hc : Forall (fun c => fits (fst c) (N.of_nat (length (snd c))) /\ bytes_ok (snd c))
+                 (map (fun c => (minw (N.of_nat (length c)), c)) (chunks (length s) (chunk_len (length s)) s))).
+  { apply Forall_map. cbn [fst snd].
+    apply (chunks_Forall _ (fun l => bytes_ok l /\ (length l <= length s)%nat)).
+    - intros l n [H1 H2]. split; [apply Forall_skipn'; assumption | rewrite skipn_length; lia].
+    - intros l k [H1 H2]. split.
+      + apply minw_fits. rewrite firstn_length. lia.
+      + apply Forall_firstn'; assumption.
+    - split; [assumption | lia]. }
+  destruct (eo_indef O); destruct text; cbn [twf]; try assumption; (split; [apply minw_fits; assumption | assumption]).
+Qed.
+
+Lemma wf_pairs_Forall : forall l,
+  (fix go (l : list (item * item)) : Prop := match l with [] => True | (k, v) :: r => wf k /\ wf v /\ go r end) l
+  <-> Forall (fun kv => wf (fst kv) /\ wf (snd kv)) l.
+Proof.
+  induction l as [| [k v] l IH]; split; intros H; [constructor | exact I | |].
+  - destruct H as (?&?&?). constructor; [split; assumption | apply IH; assumption].
+  - inversion H as [| ? ? [? ?] ?]; subst. cbn [fst snd] in *. repeat split; try assumption. apply IH; assumption.
+Qed.
+
+Theorem tree_of_twf : forall (O : eopts) (i : item), wf i -> plain i -> twf (tree_of O i).
+Proof.
+  intros O i. induction i using item_ind'; intros Hw Hp; cbn [tree_of wf plain] in *.
+  - cbn. lia.
+  - destruct b; cbn; lia.
+  - unfold int_tree. destruct (z <? 0)%Z; cbn [twf]; apply minw_fits; lia.
+  - cbn [twf]. apply minw_fits; assumption.
+  - cbn [twf]. assumption.
+  - cbn [twf]. assumption.
+  - apply str_tree_twf; assumption.
+  - apply str_tree_twf; assumption.
+  - destruct Hp as [Hp Hlen]. apply fix_Forall in Hp. apply fix_Forall in Hw.
+    assert (Ht : Forall twf (map (tree_of O) l)).
+    { apply Forall_map. rewrite Forall_forall in *. intros x Hx. apply H; auto. }
+    destruct (eo_indef O); cbn [twf].
+    + apply fix_Forall. assumption.
+    + split; [rewrite map_length; apply minw_fits; assumption | apply fix_Forall; assumption].
+  - destruct Hp as [Hp Hlen]. apply fix_Forall2 in Hp. apply wf_pairs_Forall in Hw.
+    assert (Ht : Forall (fun kv => twf (fst kv) /\ twf (snd kv)) (map (fun kv => (tree_of O (fst kv), tree_of O (snd kv))) l)).
+    { apply Forall_map. cbn [fst snd]. rewrite Forall_forall in *. intros x Hx.
+      destruct (H x Hx), (Hw x Hx), (Hp x Hx). split; auto. }
+    destruct (eo_indef O); cbn [twf].
+    + apply fix_Forall2. assumption.
+    + split; [rewrite map_length; apply minw_fits; assumption | apply fix_Forall2; assumption].
+  - destruct Hp as [Ht Hp]. cbn [twf]. split; [apply minw_fits; assumption | apply IHi; assumption].
+  - contradiction.
+  - contradiction.
+Qed.
+
+Theorem tree_of_data : forall (O : eopts) (i : item), plain i -> data_of (tree_of O i) = sdata_of O i.
+Proof.
+  intros O i. induction i using item_ind'; intros Hp; cbn [tree_of sdata_of plain] in *; try reflexivity.
+  - unfold int_tree. destruct (z <? 0)%Z; reflexivity.
+  - rewrite str_tree_data. destruct (eo_str2raw O); reflexivity.
+  - rewrite str_tree_data. reflexivity.
+  - destruct Hp as [Hp _]. apply fix_Forall in Hp.
+    assert (E : map data_of (map (tree_of O) l) = map (sdata_of O) l).
+    { rewrite map_map. apply map_ext_in. intros x Hx. rewrite Forall_forall in *. apply H; auto. }
+    destruct (eo_indef O); cbn [data_of]; rewrite E; reflexivity.
+  - destruct Hp as [Hp _]. apply fix_Forall2 in Hp.
+    assert (E : map (fun kv => (data_of (fst kv), data_of (snd kv))) (map (fun kv => (tree_of O (fst kv), tree_of O (snd kv))) l)
+                = map (fun kv => (sdata_of O (fst kv), sdata_of O (snd kv))) l).
+    { rewrite map_map. cbn [fst snd]. apply map_ext_in. intros x Hx. rewrite Forall_forall in *.
+      destruct (H x Hx) as [H1 H2], (Hp x Hx) as [P1 P2]. rewrite H1, H2 by assumption. reflexivity. }
+    destruct (eo_indef O); cbn [data_of]; rewrite E; reflexivity.
+  - destruct Hp as [_ Hp]. cbn [data_of]. rewrite IHi by assumption. reflexivity.
+Qed.
+
+(* ------------------------------------------------------------------ *)
+(* statements used by Properties/C10_cbor.v *)
+Definition norm (O : eopts) (D : dopts) (i : item) : item := go_of D (sdata_of O i).
+
+Lemma cbor_in_lemma : forall (D : dopts) (t : wtree) (rest : list N),
+  twf t -> lib_supports D t -> (tdepth D t < maxdepth D)%Z ->
+  dec_naked D (fuel_for (ser t ++ rest)) (ser t ++ rest) = Ok (go_of D (data_of t), rest).
+Proof.
+  intros. unfold dec_naked. apply dec_ser; try assumption.
+  all: try (unfold fuel_for; rewrite app_length; lia).
+  all: lia.
+Qed.
+
+Lemma cbor_out_lemma : forall (O : eopts) (i : item),
+  eo_optsize O = false -> wf i -> plain i ->
+  spec_dec (spec_fuel (enc O i)) (enc O i) = Some (sdata_of O i, []).
+Proof.
+  intros O i Ho Hw Hp. rewrite enc_ser by assumption.
+  rewrite <- (app_nil_r (ser (tree_of O i))) at 2.
+  rewrite spec_ser.
+  - rewrite tree_of_data by assumption. reflexivity.
+  - apply tree_of_twf; assumption.
+  - unfold spec_fuel. lia.
+Qed.
+
+Lemma dec_enc_lemma : forall (O : eopts) (D : dopts) (i : item) (rest : list N),
+  eo_optsize O = false -> wf i -> plain i ->
+  lib_supports D (tree_of O i) -> (tdepth D (tree_of O i) < maxdepth D)%Z ->
+  dec_naked D (fuel_for (enc O i ++ rest)) (enc O i ++ rest) = Ok (norm O D i, rest).
+Proof.
+  intros O D i rest Ho Hw Hp Hs Hd. rewrite enc_ser by assumption. unfold norm.
+  rewrite <- tree_of_data by assumption.
+  apply cbor_in_lemma; try assumption. apply tree_of_twf; assumption.
+Qed.
+
+Lemma spec_consistent_lemma : forall (t : wtree) (rest : list N),
+  twf t -> spec_dec (spec_fuel (ser t ++ rest)) (ser t ++ rest) = Some (data_of t, rest).
+Proof. intros t rest H. apply spec_ser; [assumption |]. unfold spec_fuel. rewrite app_length. lia. Qed.
+
+Lemma enc_wellformed_lemma : forall (O : eopts) (i : item),
+  eo_optsize O = false -> wf i -> plain i -> enc O i = ser (tree_of O i) /\ twf (tree_of O i).
+Proof. intros O i Ho Hw Hp. split; [apply enc_ser; assumption | apply tree_of_twf; assumption]. Qed.
